@@ -59,7 +59,11 @@ Seg == { <<97>>, <<92, 34>>, <<92, 92>>, <<92, 47>>, <<92, 98>>, <<92, 102>>, <<
          <<128>>, <<255>>, <<237, 160, 189>>,                             \* invalid UTF-8 passes through
          <<47>>, <<127>>, <<32>> }
 MaxSegs == IF Tier = "thorough" THEN 3 ELSE 2
-StrBodies == UNION {[1..n -> Seg] : n \in 0..MaxSegs}
+\* every ordering of three segments over the surrogate halves, a pair, a plain byte and a simple escape (a half must combine only
+\* with the half DIRECTLY next to it), in both tiers
+SurSeg == { <<92, 117, 68, 56, 51, 68>>, <<92, 117, 68, 69, 48, 48>>, <<92, 117, 68, 56, 51, 68, 92, 117, 68, 69, 48, 48>>, <<97>>, <<92, 110>>,
+            <<239, 191, 189>> }
+StrBodies == UNION {[1..n -> Seg] : n \in 0..MaxSegs} \cup [1..3 -> SurSeg]
 RECURSIVE Flat(_)
 Flat(ss) == IF ss = <<>> THEN <<>> ELSE Head(ss) \o Flat(Tail(ss))
 
